@@ -39,6 +39,7 @@ var c20Queries = []c20Query{
 	{"join", "SELECT id, a, m.label AS lbl, m.w AS w FROM stream JOIN meta m ON k = m.k", true, true},
 	{"join_left_where", "SELECT id, k, m.label AS lbl FROM stream LEFT JOIN meta m ON k = m.k WHERE a >= 0", true, true},
 	{"cep", "SELECT * FROM stream MATCH_RECOGNIZE (ORDER BY ts MEASURES MATCH_NUMBER() AS mn, FIRST(A.id) AS fid, COUNT(*) AS n ONE ROW PER MATCH PATTERN (A B) DEFINE A AS a > 5, B AS a <= 5)", false, false},
+	{"cep_failing_define", "SELECT * FROM stream MATCH_RECOGNIZE (ORDER BY ts MEASURES MATCH_NUMBER() AS mn, FIRST(A.id) AS fid, COUNT(*) AS n ONE ROW PER MATCH PATTERN (A B) DEFINE A AS a / b > 2, B AS a <= 5)", false, false},
 	{"case_expr", "SELECT id, CASE WHEN a > 5 THEN 'hi' ELSE 'lo' END AS lvl, coalesce(s, 'none') AS cs FROM stream", true, false},
 	{"unnest_objects", "SELECT id, k, unnest(orders) AS o FROM stream", false, false},
 	{"unnest_scalars", "SELECT id, a, unnest(tags) AS tag FROM stream", false, false},
@@ -169,7 +170,7 @@ func runC20Literals(ctx *core.Ctx) {
 }
 
 func runC20(ctx *core.Ctx) {
-	ctx.SetRule("case = (one of 13 query kinds: projection, *, expressions, analytic in SELECT / in WHERE / wrapped, function group key, counting, event-time tumbling, JOIN inner/left+WHERE, CEP, CASE) × API (Emit | EmitSync) × mode (caller-data untouched + sink rows unaltered | paired with an instance of the same SQL | paired with a different SQL sharing expression texts but fed differently typed rows), nested rows from PRNG(seed,index). " +
+	ctx.SetRule("case = (one of 18 query kinds: projection, *, expressions, analytic in SELECT / in WHERE / wrapped, function group key, counting, event-time tumbling, JOIN inner/left+WHERE, CEP with and without a DEFINE that fails on some rows, CASE, unnest, merge_agg) × API (Emit | EmitSync) × mode (caller-data untouched + sink rows unaltered | paired with an instance of the same SQL | paired with a different SQL sharing expression texts but fed differently typed rows), nested rows from PRNG(seed,index). " +
 		"non-trivial = at least 5 results were delivered and compared; distinct by (query, mode, api, rows) hash")
 	ctx.Assume("structural deep equality including key sets; Go value types are compared exactly for caller data",
 		"paired runs feed both instances from concurrent goroutines; the solo run is the oracle for the paired one, joined per row id")
@@ -413,6 +414,13 @@ func execC20(ctx *core.Ctx, c *c20Case, q c20Query, r *rand.Rand) {
 				{"alt_case", "SELECT id, CASE WHEN a > 5 THEN 'hi' ELSE 'lo' END AS lvl, concat(s, '_x') AS cs FROM stream WHERE a >= 0", true, false},
 			}
 			otherQ = alt[r.Intn(len(alt))]
+			switch q.Name {
+			case "cep":
+				// the neighbour's DEFINE cannot be evaluated on some of its rows (b = 0)
+				otherQ = c20Query{"alt_cep_failing", "SELECT * FROM stream MATCH_RECOGNIZE (ORDER BY ts MEASURES FIRST(A.id) AS fid, LAST(B.a) AS la ONE ROW PER MATCH PATTERN (A B) DEFINE A AS a / b > 1, B AS a + b <= 9)", false, false}
+			case "cep_failing_define":
+				otherQ = c20Query{"alt_cep", "SELECT * FROM stream MATCH_RECOGNIZE (ORDER BY ts MEASURES FIRST(A.id) AS fid, LAST(B.a) AS la ONE ROW PER MATCH PATTERN (A B) DEFINE A AS a > 7, B AS b <= 3)", false, false}
+			}
 			otherSQL = otherQ.SQL
 			otherRows = c20Rows(r, len(c.Rows), pick(r, []string{"float", "mixed"}))
 			c.Other = otherSQL
